@@ -25,6 +25,10 @@ def render(scope, prog):
             body.append(f"l{n} = [{src}]")
         elif k == "passmut":
             body.append(f"u{n} = takem {src}")
+        elif k == "passmutb":
+            body.append(f"takem {src}")
+        elif k == "passimmb":
+            body.append(f"imm {src}")
         elif k == "passref":
             body.append(f"u{n} = look {src}")
         elif k == "passimm":
